@@ -203,8 +203,9 @@ pub enum Op {
     /// (how: 0 remove, 1 remove_entry, 2 occupied-entry remove, 3 raw-entry remove, 4 replace_entry_with(None))
     RemoveOld { s: u8, how: u8, keep: u8 },
     /// mid-resize: removes main-table elements until len + L + ceil(L/R) sits exactly on a
-    /// table-capacity boundary, then shrink_to_fit (the tightest table the headroom rule allows)
-    TightShrink { s: u8 },
+    /// table-capacity boundary (`over`: one above it, so that an off-by-one in the headroom picks the
+    /// smaller table), then shrink_to_fit
+    TightShrink { s: u8, #[serde(default)] over: bool },
     /// get() of every key either map holds, in both maps (C14)
     CrossGet,
     // feature checks that need a state
